@@ -647,6 +647,19 @@ func init() {
 			if loop := c12InnerLoop(fd); loop != nil {
 				e.c12Effects(t, "drainEntryEff", "one iteration of the inner loop of `drainAll`", recvOf(fd), nil, s.c12Rewrite(loop.Body.List))
 				e.stringList("drainLoopHeader", "inner loop header of `drainAll`", []string{c12Src(s, loop.Init), c12Src(s, loop.Cond), c12Src(s, loop.Post)})
+				// what drainAll does with the collected tasks, after the slots are empty (the hand-off to the workers)
+				var tail []string
+				seenRange := false
+				for _, st := range fd.Body.List {
+					if _, ok := st.(*ast.RangeStmt); ok && !seenRange {
+						seenRange = true
+						continue
+					}
+					if seenRange {
+						s.c12Deep([]ast.Stmt{st}, &tail)
+					}
+				}
+				e.stringList("drainTailStmts", "statements of `drainAll` after the loop over the slots", tail)
 			} else {
 				e.errors = append(e.errors, "drainAll: loop not found")
 			}
